@@ -296,7 +296,13 @@ fn builtin_jobs(names: &[String], rng: &mut Rng, thorough: bool) -> (Vec<Job>, u
       ("invoked in a function body", format!("(function (w9) {}(w9, {}))({})", nm, q, p), Some(num(e_f)), Some(num(e_g)), Some(Value::Null(None))),
       ("invoked in a context entry", format!("{{r: {}({}, {})}}.r", nm, p, q), Some(num(e_f)), Some(num(e_g)), Some(Value::Null(None))),
       ("read as an operand", format!("[{}, 1]", nm), None, None, Some(Value::List(dmntk_feel::values::Values::new(vec![num(7), num(1)])))),
-      ("tested with instance of", format!("{} instance of number", nm), Some(Value::Boolean(false)), Some(Value::Boolean(false)), Some(Value::Boolean(true))),
+      // for the name `number` itself the variable shadows the TYPE name after `instance of` (finding F74-type-name-shadowed
+      // of C01, judged there by the family feelsem); C13 speaks about history only: no written-out value for that name
+      if nm == "number" {
+        ("tested with instance of", format!("{} instance of number", nm), None, None, None)
+      } else {
+        ("tested with instance of", format!("{} instance of number", nm), Some(Value::Boolean(false)), Some(Value::Boolean(false)), Some(Value::Boolean(true)))
+      },
     ];
     let n_uses = if thorough { uses.len() } else { 5 };
     let first_use = rng.below(uses.len() as u64) as usize;
